@@ -8,7 +8,7 @@
 (*   sn = [st, cmd, nums, str, ls, lc, lp, gdc, loop] lexer snapshot AFTER the call (cfg(icy_engine_verif) hook)     *)
 (* Model layer (Expect = drift, then the recorded state is adopted): result, executed commands and every snapshot   *)
 (* field equal IgsStep / IgsPoll.  Property layer (Check, C20): outcome is an action or an error, at most IterBound *)
-(* commands per call, step time bounded, a pending loop makes progress, no abort / hang.                             *)
+(* commands per call, step time bounded, every iteration moves a pending loop towards its end, no abort / hang.           *)
 EXTENDS Igs, TraceLib
 VARIABLES l, st
 vars == <<l, st>>
@@ -40,6 +40,9 @@ ExMatch(mex, rex) == Len(mex) = Len(rex) /\ \A k \in 1..Len(mex) : mex[k].cmd = 
 
 PrevLoop == IF l > 1 /\ Has(Rec[l - 1], "sn") /\ Has(Rec[l - 1].sn, "loop") THEN Rec[l - 1].sn.loop ELSE <<>>
 
+\* a poll that ran an iteration of the pending loop <<i, from, to, step, delay>> moved i towards `to`
+Advances(p, n) == IF p[2] < p[3] THEN n[1] > p[1] ELSE n[1] < p[1]
+
 \* o = the model's answer for this event (argument => evaluated once)
 Call(e, o, isPoll) ==
   /\ Bump(IF isPoll THEN 6 ELSE 5)
@@ -49,8 +52,8 @@ Call(e, o, isPoll) ==
   /\ Check(e.r \in {"ok", "err", "some", "none"}, "C20", "Outcome", l, [call |-> e.ev, r |-> e.r])
   /\ Check(Len(e.ex) <= IterBound, "C20", "ExecBound", l, [call |-> e.ev, n |-> Len(e.ex)])
   /\ Check(e.us <= 5000000, "C20", "StepTime", l, [call |-> e.ev, us |-> e.us])
-  /\ Check(~(isPoll /\ e.r = "some" /\ PrevLoop # <<>> /\ e.sn.loop = PrevLoop), "C20", "LoopProgress", l,
-           [step |-> IF PrevLoop # <<>> THEN PrevLoop[4] ELSE -1])
+  /\ Check(~(isPoll /\ e.ex # <<>> /\ e.r # "panic" /\ PrevLoop # <<>> /\ e.sn.loop # <<>>) \/ Advances(PrevLoop, e.sn.loop), "C20", "LoopProgress", l,
+           [step |-> IF PrevLoop # <<>> THEN (IF PrevLoop[4] = 0 THEN "0" ELSE "nonzero") ELSE "?"])
   \* ---- model layer
   /\ Expect(ResMatch(o.res, e.r, e.act, e.ms), "result", l, [call |-> e.ev, exp |-> o.res, got |-> <<e.r, e.act, e.ms>>])
   /\ Expect(ExMatch(o.ex, e.ex), "executed", l, [call |-> e.ev, exp |-> o.ex, got |-> e.ex])
